@@ -112,6 +112,9 @@ func isStringType(t types.Type) bool {
 }
 
 func intRange(t types.Type) (lo, hi int64) {
+	if t == nil {
+		return math.MinInt64, math.MaxInt64
+	}
 	b, ok := t.Underlying().(*types.Basic)
 	if !ok {
 		return math.MinInt64, math.MaxInt64
